@@ -324,8 +324,20 @@ class Impl:
                      "stored_at_missing": canon_words(stored)[:8]}
         elif op == "roundtrip":
             from pose_format.pose import Pose
+            from pose_format.numpy.pose_body import NumPyPoseBody
+            if len(case["data"]) % 2 == 0 and case["shape"][3] > 0:
+                # a binary64 body in memory whose stored coordinates at missing points are finite but far outside binary32
+                # (what is stored there is nobody's business: the file is written, and reads back to the same visible pose)
+                d64 = np.asarray(ma.getdata(pose.body.data)).astype(np.float64)
+                c64 = np.asarray(pose.body.confidence).astype(np.float64)
+                miss4 = np.repeat((c64 == 0)[..., None], d64.shape[-1], axis=-1)
+                with np.errstate(all="ignore"):
+                    d64 = np.where(miss4 & np.isfinite(d64), d64 * 1e30 + np.sign(d64) * 1e39, d64)
+                pose = Pose(pose.header, NumPyPoseBody(pose.body.fps, d64, c64))
             buf = io.BytesIO()
-            pose.write(buf)
+            with warnings.catch_warnings():
+                warnings.simplefilter("ignore")          # NumPy warns about the overflow in the cast of such garbage
+                pose.write(buf)
             res = Pose.read(buf.getvalue()).body
         else:
             raise ValueError("unknown op " + op)
